@@ -127,7 +127,8 @@ NaN: `static_cast<int>` of it is undefined. -/
 def splineEval (rows : List (SplineRow R)) (x : R) : Except Err R :=
   let n := rows.length
   if x ≥ 0 ∧ x ≤ Scalar.nat (n - 1) then do
-    let k := natTrunc x n 0
+    -- `static_cast<size_t>(x)` of `0 ≤ x ≤ n−1`: at most `n−1` (the search stops there)
+    let k := natTrunc x (n - 1) 0
     let h := x - Scalar.nat k
     let r ← idx rows k
     return ((r.a * h + r.b) * h + r.c) * h + r.y
